@@ -83,6 +83,8 @@ def gen_core(rng, knobs=None):
                 # the library's own batching subscriber (AwaitableRSocket.request_stream(limit_rate))
                 pol['collector'] = {'limit_rate': rng.choice([1, 1, 2, 2, 3, 5]), 'limit_count': rng.choice([None, None, None, 2, 3])}
             n0 = rng.choice([1, 1, 2, 3, 5, 2147483647, None])
+            if k.get('p_bad_n') and rng.random() < k['p_bad_n']:
+                n0 = rng.choice([0, -1, -2147483648])       # refused by the library: nothing may reach the wire
             prog.append(['stream', ep, sp, n0, pol, True])
             inter.append({'kind': kind, 'resp_scripted': pol['src'] == 'scripted'})
         else:
@@ -112,6 +114,8 @@ def gen_core(rng, knobs=None):
             if rng.random() < k.get('p_collector', 0.2):
                 pol['collector'] = {'limit_rate': rng.choice([1, 1, 2, 2, 3, 5]), 'limit_count': rng.choice([None, None, None, 2, 3])}
             n0 = rng.choice([1, 2, 3, 5, 2147483647, None])
+            if k.get('p_bad_n') and rng.random() < k['p_bad_n']:
+                n0 = rng.choice([0, -1, -2147483648])
             prog.append(['channel', ep, sp, n0, pol, has_pub, ppol, True])
             inter.append({'kind': kind, 'resp_scripted': pol['src'] == 'scripted' and pol['pub'],
                           'req_scripted': has_pub and ppol['src'] == 'scripted'})
